@@ -312,6 +312,7 @@ func (api *DatabaseAPI) send(opID []byte, msgType string, msgOrKey string, data 
 }
 
 func (api *DatabaseAPI) handleGet(opID []byte, key string) {
+	defer verifTrack("get", opID)()
 	// 123|get|<key>
 	//    123|ok|<key>|<data>
 	//    123|error|<message>
@@ -330,6 +331,7 @@ func (api *DatabaseAPI) handleGet(opID []byte, key string) {
 }
 
 func (api *DatabaseAPI) handleQuery(opID []byte, queryText string) {
+	defer verifTrack("query", opID)()
 	// 124|query|<query>
 	//    124|ok|<key>|<data>
 	//    124|done
@@ -360,6 +362,7 @@ func (api *DatabaseAPI) processQuery(opID []byte, q *query.Query) (ok bool) {
 	api.queriesLock.Lock()
 	api.queries[string(opID)] = it
 	api.queriesLock.Unlock()
+	verifEvent("dbapi:query-registered", string(opID))
 
 	// Remove query iterator after it ended.
 	defer func() {
@@ -369,6 +372,7 @@ func (api *DatabaseAPI) processQuery(opID []byte, q *query.Query) (ok bool) {
 	}()
 
 	for {
+		verifEvent("dbapi:query-next", string(opID))
 		select {
 		case <-api.shutdownSignal:
 			// cancel query and return
@@ -400,6 +404,7 @@ func (api *DatabaseAPI) processQuery(opID []byte, q *query.Query) (ok bool) {
 // func (api *DatabaseWebsocketAPI) runQuery()
 
 func (api *DatabaseAPI) handleSub(opID []byte, queryText string) {
+	defer verifTrack("sub", opID)()
 	// 125|sub|<query>
 	//    125|upd|<key>|<data>
 	//    125|new|<key>|<data>
@@ -437,6 +442,8 @@ func (api *DatabaseAPI) processSub(opID []byte, sub *database.Subscription) {
 	api.subsLock.Lock()
 	api.subs[string(opID)] = sub
 	api.subsLock.Unlock()
+	verifEvent("dbapi:sub-ready", string(opID), sub)
+	defer verifEvent("dbapi:sub-exit", string(opID), sub)
 
 	// Remove subscription after it ended.
 	defer func() {
@@ -446,6 +453,7 @@ func (api *DatabaseAPI) processSub(opID []byte, sub *database.Subscription) {
 	}()
 
 	for {
+		verifEvent("dbapi:sub-next", string(opID), sub)
 		select {
 		case <-api.shutdownSignal:
 			// cancel sub and return
@@ -483,6 +491,7 @@ func (api *DatabaseAPI) processSub(opID []byte, sub *database.Subscription) {
 }
 
 func (api *DatabaseAPI) handleQsub(opID []byte, queryText string) {
+	defer verifTrack("qsub", opID)()
 	// 127|qsub|<query>
 	//    127|ok|<key>|<data>
 	//    127|done
@@ -513,6 +522,7 @@ func (api *DatabaseAPI) handleQsub(opID []byte, queryText string) {
 }
 
 func (api *DatabaseAPI) handleCancel(opID []byte) {
+	defer verifTrack("cancel", opID)()
 	api.cancelQuery(opID)
 	api.cancelSub(opID)
 }
@@ -547,6 +557,7 @@ func (api *DatabaseAPI) cancelSub(opID []byte) {
 
 	// End subscription.
 	err := sub.Cancel()
+	verifEvent("dbapi:sub-cancelled", string(opID), sub)
 	if err != nil {
 		api.send(opID, dbMsgTypeError, fmt.Sprintf("failed to cancel subscription: %s", err), nil)
 	}
@@ -555,6 +566,7 @@ func (api *DatabaseAPI) cancelSub(opID []byte) {
 }
 
 func (api *DatabaseAPI) handlePut(opID []byte, key string, data []byte, create bool) {
+	defer verifTrack("put", opID)()
 	// 128|create|<key>|<data>
 	//    128|success
 	//    128|error|<message>
@@ -595,6 +607,7 @@ func (api *DatabaseAPI) handlePut(opID []byte, key string, data []byte, create b
 }
 
 func (api *DatabaseAPI) handleInsert(opID []byte, key string, data []byte) {
+	defer verifTrack("insert", opID)()
 	// 130|insert|<key>|<data>
 	//    130|success
 	//    130|error|<message>
@@ -647,6 +660,7 @@ func (api *DatabaseAPI) handleInsert(opID []byte, key string, data []byte) {
 }
 
 func (api *DatabaseAPI) handleDelete(opID []byte, key string) {
+	defer verifTrack("delete", opID)()
 	// 131|delete|<key>
 	//    131|success
 	//    131|error|<message>
